@@ -568,10 +568,13 @@ async fn late_stale<TC: Configuration>(cx: &mut Cx, r: &mut Rng) {
 }
 
 async fn one<TC: Configuration>(cx: &mut Cx, r: &mut Rng, epochs: usize, nlabels: usize) {
+    let labels = label_universe(r, nlabels);
+    one_with::<TC>(cx, r, epochs, labels).await
+}
+async fn one_with<TC: Configuration>(cx: &mut Cx, r: &mut Rng, epochs: usize, labels: Vec<Vec<u8>>) {
     let cfg = cfg_name::<TC>();
     let db = Db::new();
     let dir = new_dir::<TC>(&db, false, false).await;
-    let labels = label_universe(r, nlabels);
     let vrf = HardCodedAkdVRF {};
     let ckb = TC::hash(&vrf.retrieve().await.unwrap()).to_vec();
     let pkb = vrf.get_vrf_public_key().await.unwrap().as_bytes().to_vec();
@@ -612,6 +615,13 @@ pub fn run(seed: u64, tier: u32) -> Cx {
             let epochs = if tier == 0 { 6 + i } else { 5 + (i % 6) * 2 };
             if i % 2 == 0 { one::<W>(&mut cx, &mut r, epochs, 3).await } else { one::<E>(&mut cx, &mut r, epochs, 3).await }
         }
+        // tiny directories: one account with two or three versions; for some names every leaf starts with the same bit,
+        // so that the root itself has an empty child and is a possible anchor of forged absences
+        for name in [&b"user3"[..], &b"user5"[..], &b"user1"[..], &b"user18"[..]] {
+            one_with::<W>(&mut cx, &mut r, 2, vec![name.to_vec()]).await;
+            one_with::<E>(&mut cx, &mut r, 2, vec![name.to_vec()]).await;
+        }
+        one_with::<W>(&mut cx, &mut r, 3, vec![b"user5".to_vec()]).await;
         late_stale::<W>(&mut cx, &mut r).await;
         late_stale::<E>(&mut cx, &mut r).await;
     });
